@@ -127,6 +127,21 @@ PROPS["C09"] = dict(
     thorough=dict(shards=16, checks=100, timeout_s=5400),
 )
 
+PROPS["C20"] = dict(
+    pkg="props/c20", level="exploration", engine="E-model", design_ref="§4 C20",
+    technique="differential PBT (rapid): Kaitai-generated reader vs native reader + independent header decoder on generated files",
+    rule=("case = file of 0..12 nil/empty/patterned records (up to 5000 bytes) under one of the four compression types and a generated write buffer; the bytes are parsed with "
+          "gokaitai.RecordioV4 and compared with the native reader (count, nil flags) and with the stored payload bytes located by the offsets Write returned and an independent "
+          "header decoder; the header's compression code must be one of the constants of the generated package (read with go/parser from the tree); non-trivial = file with >=1 nil, "
+          ">=1 empty and >=1 non-empty record; distinct = distinct case JSON"),
+    level_text="Differential between two decoders of the same bytes with an exact equality oracle; sampled exploration over record sequences x all four compression types.",
+    level_note="'known to the schema' is decided against the generated Go package in the repository, not other Kaitai targets; enum label names are not asserted",
+    assumptions=COMMON_ASSUME,
+    require_labels=["comp=0", "comp=1", "comp=2", "comp=3"],
+    quick=dict(shards=16, checks=200),
+    thorough=dict(shards=16, checks=5000, timeout_s=3600),
+)
+
 NOT_APPLICABLE = {}
 
 
